@@ -656,6 +656,38 @@ func realMain() {
 			cases = append(cases, scase{Cfg: cfg, Lines: a.lines, Expect: &e, Archive: a.archive})
 		}
 	}
+	// spellings of the number in -count=N: N is a decimal number, whatever its
+	// leading zeros; prefixes of other bases, separators and exponents are no numbers
+	{
+		lines := func(n int) string { return strings.Repeat("x\n", n) }
+		countArchive := [][2]string{{"c2", lines(2)}, {"c8", lines(8)}, {"c10", lines(10)}, {"c16", lines(16)}}
+		spell := []struct {
+			s string
+			v int // 0 = not a number (or not a positive one)
+		}{{"8", 8}, {"08", 8}, {"008", 8}, {"010", 10}, {"10", 10}, {"0010", 10}, {"02", 2}, {"016", 16}, {"0x8", 0}, {"0x10", 0}, {"0X10", 0}, {"0b10", 0}, {"0o10", 0}, {"1_0", 0}, {"1e1", 0}, {"8.0", 0}, {"00", 0}, {"", 0}, {"\u0668", 0}}
+		for _, sp := range spell {
+			for _, n := range []int{2, 8, 10, 16} {
+				for _, via := range []string{"grep", "stdout"} {
+					var ls []string
+					file := fmt.Sprintf("c%d", n)
+					switch via {
+					case "grep":
+						ls = []string{"grep -count=" + sp.s + " x " + file}
+					default:
+						ls = []string{"stdin " + file, "exec hcat", "stdout -count=" + sp.s + " x"}
+					}
+					e := expectation{Verdict: "pass", Why: fmt.Sprintf("-count=%s is the decimal number %d and there are %d matching lines", sp.s, sp.v, n)}
+					if sp.v != n {
+						e = expectation{Verdict: "fail", FailLine: len(ls), Why: fmt.Sprintf("-count=%s (decimal value %d; 0 = not a positive decimal number) against %d matching lines", sp.s, sp.v, n)}
+					}
+					for _, cfg := range []config{def, coe} {
+						e := e
+						cases = append(cases, scase{Cfg: cfg, Lines: ls, Expect: &e, Archive: countArchive})
+					}
+				}
+			}
+		}
+	}
 	// several script files in one invocation (the failure flag is shared)
 	multi := [][]string{{"exists f"}, {"exists nofile"}, {"skip"}, {"stop"}, {"exec hexit 3"}, {"exists f", "skip", "exists nofile"}, {"! exec hexit 0", "skip"}}
 	for _, cfg := range []config{def, coe} {
